@@ -58,7 +58,7 @@ func init() {
 			}
 		},
 		Run:    run,
-		Replay: nil,
+		Replay: replay,
 	})
 }
 
@@ -503,3 +503,27 @@ func settled(plans []*connPlan, mu *sync.Mutex, acc *[]*accepted, needAccept boo
 
 var _ = json.Marshal
 var _ layer4.Handler
+
+
+func replay(c *fw.Ctx, raw json.RawMessage) {
+	var w struct {
+		Run int `json:"run"`
+	}
+	if err := json.Unmarshal(raw, &w); err != nil {
+		fmt.Println("replay: cannot decode run:", err)
+		return
+	}
+	hmods.Quiet(c.OutDir + "/caddyhome")
+	cert, err := tlsutil.NewCert("verif.test")
+	if err != nil {
+		return
+	}
+	if err := caddy.Load([]byte(tlsutil.CaddyConfig(cert, nil)), true); err != nil {
+		fmt.Println("replay:", err)
+		return
+	}
+	for k := 0; k < 3; k++ { // interleavings vary: a few repetitions of the same scripted run
+		oneRun(c, cert, w.Run, 48)
+	}
+	_ = caddy.Stop()
+}
